@@ -94,7 +94,9 @@ CLAIMED = {
             "Coq proof over the parser/recorder model + regenerated TYPE_LEN/REVERSE_MAP/formats + differential correspondence"),
     "C16": ("Coq model of the viewer-side parser (Model/Recorder.v) and of the logging client (= library client model started at "
             "ServerInit); theorems about the parser: it never spins on any byte string (potential argument), handlers are local, a raise "
-            "is chunk-independent, a session of the seven message kinds with any field values never raises under any chunking; the real proxy pair is driven on in-memory "
+            "is chunk-independent and time-independent, a session of the seven message kinds with any field values never raises under any chunking "
+            "and timing so that exactly the viewer's bytes are forwarded once and in order (relay theorem), and the logging client never "
+            "raises on server sessions of Raw/CopyRect/RRE/CoRRE updates, bells and cut texts; the real proxy pair is driven on in-memory "
             "transports with causal interleavings of both directions cut at random: after every chunk each leg must have received "
             "exactly the bytes sent so far and nothing may raise; several connections on one factory (shared stream, per-connection "
             "files); the parser and the logging client are compared with the Coq models",
